@@ -105,7 +105,8 @@ pub fn roundtrip(text: &str) -> Result<Option<RtDev>, String> {
             let (c, e, o) = classify_diff(&a, &b);
             return Some(RtDev { kind: "content-changed", detail: format!("dom:{}", c), expected: e, observed: o });
         }
-        if d1 != d2 {
+        let _ = &d2;
+        if *i1.borrow() != *i2.borrow() {
             return Some(RtDev {
                 kind: "partialeq-differs",
                 detail: construct_of(text),
